@@ -1,6 +1,9 @@
 package cfbgen
 
-import "fmt"
+import (
+	"fmt"
+	"unicode/utf16"
+)
 
 // Sizes is the stream-size ladder: empty, one byte, either side of a mini
 // sector (64), either side of the mini-stream cutoff (4096) which is also the
@@ -390,6 +393,115 @@ func FamilyTarPath() []Spec {
 			s.Storage = storageOf(msiNameOfDecodedLen(pair[0], 2), [2]int{300, 5000})
 			s.Storage.Streams[0].Name = msiNameOfDecodedLen(pair[1], 3)
 			out = append(out, s)
+		}
+	}
+	return out
+}
+
+// ---------------------------------------------------------------------------
+// Sibling names that differ exactly where the case folding of [MS-CFB] 2.6.4
+// decides the order.
+
+// FoldAlphabet is the set of "first differing element" values of the namefold
+// families: one representative of every class of UTF-16 code unit that a
+// comparison "by length, then by UPPER-cased code units" can treat differently
+// from a comparison by raw units, by lower-cased units or by code points:
+// a digit; an upper-case and a lower-case ASCII letter (different letters, so
+// that they are not the same name); the characters between 'Z' and 'a' that a
+// name may contain ('\\' is not allowed in a name, [MS-CFB] 2.6.1); characters
+// above 'z'; the Latin-1 analogues - an upper-case and a lower-case letter, the
+// caseless signs that lie inside the two letter ranges (U+00D7, U+00F7), the
+// caseless letter between them (U+00DF) and the last lower-case letter whose
+// upper case is still Latin-1 (U+00FE); a BMP unit above the surrogate range
+// (U+FF21, already upper case); and two supplementary characters, i.e.
+// surrogate pairs, that differ in the low surrogate only and are each other's
+// case pair as CHARACTERS (U+10400 / U+10428) while 2.6.4 compares their units
+// unchanged. Every element is one code unit except the two pairs.
+var FoldAlphabet = []string{
+	"1", "B", "c", "[", "]", "^", "_", "`", "{", "~",
+	"Ê", "é", "×", "÷", "ß", "þ",
+	"Ａ", "\U00010400", "\U00010428",
+}
+
+const foldNameUnits = 6
+
+// foldName: `pre` units of "Name", the element, then 'x' up to six code units.
+func foldName(pre int, elem string) string {
+	u := encodeName("Name"[:pre] + elem)
+	for len(u) < foldNameUnits {
+		u = append(u, 'x')
+	}
+	return string(utf16.Decode(u))
+}
+
+// FamilyNameFoldPairs: version x every unordered pair of FoldAlphabet as the
+// two streams of the root storage: equal length, first difference (after two
+// common units) one element against the other.
+func FamilyNameFoldPairs() []Spec {
+	var out []Spec
+	for _, v := range []int{3, 4} {
+		for i := range FoldAlphabet {
+			for j := i + 1; j < len(FoldAlphabet); j++ {
+				s := base("namefold-pair", v)
+				s.Streams = []Stream{
+					{Name: foldName(2, FoldAlphabet[i]), Size: 70, Seed: 1},
+					{Name: foldName(2, FoldAlphabet[j]), Size: 300, Seed: 2},
+				}
+				out = append(out, s)
+			}
+		}
+	}
+	return out
+}
+
+// FamilyNameFold: version x position of the differing element (first unit,
+// third unit, the last two units) x tree construction mode, with ALL elements
+// of FoldAlphabet as sibling streams of one storage (root).
+func FamilyNameFold() []Spec {
+	var out []Spec
+	sizes := []int{70, 0, 300, 1, 4200}
+	for _, v := range []int{3, 4} {
+		for _, pre := range []int{0, 2, 4} {
+			for _, tree := range []string{TreeBalanced, TreeInserted} {
+				s := base("namefold", v)
+				s.Tree = tree
+				for i, e := range FoldAlphabet {
+					s.Streams = append(s.Streams, Stream{Name: foldName(pre, e), Size: sizes[i%len(sizes)], Seed: i + 1})
+				}
+				out = append(out, s)
+			}
+		}
+	}
+	return out
+}
+
+// MiniHoles are the numbers of unallocated mini sectors of FamilyMiniFree: one
+// (exactly what the 32-byte MsiDigitalSignatureEx stream needs), three (more
+// than that, fewer than any signature) and 70 (more than the largest stream the
+// mini stream can hold, 4095 bytes = 64 mini sectors, plus one; also more than
+// one 4096-byte sector's worth of mini sectors).
+var MiniHoles = []int{1, 3, 70}
+
+// FamilyMiniFree: the free-sector dimension of FamilyLayout for the MINI
+// stream: version x position of the unallocated mini sectors (before / in the
+// middle of / after the used ones) x their number x input unsigned / already
+// carrying a small signature with its MsiDigitalSignatureEx (both in the mini
+// stream, behind the hole).
+func FamilyMiniFree() []Spec {
+	var out []Spec
+	for _, v := range []int{3, 4} {
+		for _, where := range []string{FreeStart, FreeMiddle, FreeTrailing} {
+			for _, hole := range MiniHoles {
+				for _, signed := range []bool{false, true} {
+					s := base("minifree", v)
+					s.Streams = sizedStreams([]int{65, 4097, 1, 300})
+					if signed {
+						s.Streams = append(s.Streams, Stream{Name: NameSig, Size: 1500, Seed: 5}, Stream{Name: NameSigEx, Size: 32, Seed: 6})
+					}
+					s.MiniFree, s.MiniHole = where, hole
+					out = append(out, s)
+				}
+			}
 		}
 	}
 	return out
